@@ -511,8 +511,18 @@ def return_expr(fi_or_node, inline_locals=False):
 
     def conv(stmts, env=None):
         env = dict(env or {})
-        while inline_locals and stmts and isinstance(stmts[0], ast.Assign) and len(stmts[0].targets) == 1 and isinstance(stmts[0].targets[0], ast.Name):
-            env[stmts[0].targets[0].id] = _subst_locals(stmts[0].value, env)
+        while inline_locals and stmts and isinstance(stmts[0], ast.Assign) and len(stmts[0].targets) == 1:
+            t0 = stmts[0].targets[0]
+            if isinstance(t0, ast.Name):
+                env[t0.id] = _subst_locals(stmts[0].value, env)
+            elif isinstance(t0, (ast.Tuple, ast.List)) and all(isinstance(x, ast.Name) for x in t0.elts) and not isinstance(stmts[0].value, (ast.Tuple, ast.List)):
+                # a, b = X: a is X[0], b is X[1] (X pure, as the caller vouches)
+                v0 = _subst_locals(stmts[0].value, env)
+                for k_, x in enumerate(t0.elts):
+                    sub = ast.Subscript(value=ast.parse(ast.unparse(v0), mode='eval').body, slice=ast.Constant(value=k_), ctx=ast.Load())
+                    env[x.id] = ast.copy_location(sub, stmts[0])
+            else:
+                break
             stmts = stmts[1:]
         if env:
             r_ = conv_plain(stmts, env)
@@ -872,3 +882,24 @@ def retag(ctx, rid, fn, *args, title=None):
         for i in r.instances:
             i.rule = new
     return ctx.rules[n0:]
+
+
+def inlined_away(repo, fi):
+    """a function the confirmed tree does not have, which the desugaring pre-pass inlined into its callers and which no
+    remaining call names: its body is analysed where it was inlined, not as a function of its own"""
+    known = getattr(repo, 'known_functions', None)
+    if known is None or fi.qualname in known:
+        return False
+    if not any(('inlined' in l_ or 'spliced' in l_) and ('helper %s ' % fi.qualname) in l_ for l_ in getattr(repo, 'desugar_log', []) or []):
+        return False
+    memo = getattr(repo, '_called_names', None)
+    if memo is None:
+        memo = set()
+        for f2 in repo.functions.values():
+            for c in iter_calls(f2.node):
+                if isinstance(c.func, ast.Attribute):
+                    memo.add(c.func.attr)
+                elif isinstance(c.func, ast.Name):
+                    memo.add(c.func.id)
+        repo._called_names = memo
+    return fi.name not in memo
